@@ -11,7 +11,8 @@ Translated from the working tree, statement by statement:
   math_helpers.numbered_vars_regexp                    -> gen_numbered_regexp            (the literal pieces of the regex)
   FormulaGrader / SumGrader / IntegralGrader.gen_evaluations
                                                        -> gen_*_loop (order of update / author evaluation / scrub /
-                                                          student evaluation / restore inside the sampling loop) and
+                                                          [summation-variable guard /] student evaluation / restore
+                                                          inside the sampling loop) and
                                                           gen_*_blacklist (how var_blacklist is assembled)
 
 Fail-closed: a typed, white-listed subset of Python.  Anything outside it raises Unsupported and the check reports
@@ -438,6 +439,11 @@ SCRUB = '''
 for key in var_blacklist:
     del varlist[key]
 '''
+GUARD_VARIABLE = '''
+if student_input['summation_variable'] in var_blacklist:
+    msg = 'Summation variable {} conflicts with another previously-defined variable.'
+    raise SummationError(msg.format(student_input['summation_variable']))
+'''
 
 
 def names_in(node, ident):
@@ -515,6 +521,11 @@ def gen_loop(tree, qual, prefix, author_marker, student_marker):
                 continue
             if same([s], SCRUB):
                 events.append('EvScrub')
+                continue
+            if same([s], GUARD_VARIABLE):
+                if 'EvScrub' not in events or 'EvStudentEval' in events:
+                    raise Unsupported('%s: the summation-variable guard must sit between scrub and student evaluation' % qual)
+                events.append('EvGuardVariable')
                 continue
             if same([s], 'funclist.update(func_samples[i])'):
                 continue
